@@ -172,6 +172,7 @@ impl BState {
         let mut viol: Vec<(Vec<&'static str>, &'static str, String, String)> = Vec::new();
         let mut probes: Vec<&'static str> = Vec::new();
         let mut nontrivial: Vec<&'static str> = Vec::new();
+        let mut covers: Vec<(&'static str, u64)> = Vec::new();
         let kind = poll.msg.unwrap_or(MsgKind::Data);
         let info = poll.info.clone();
         let tracking = info.as_ref().and_then(|i| i.tracking.clone());
@@ -198,6 +199,7 @@ impl BState {
                         }
                     };
                     latest = cls_eff;
+                    covers.push(("leap_status_values_classified", t.leap as u64));
                     if t.leap > 2 || cls_eff != Status::Synchronized {
                         nontrivial.push("C10");
                     }
@@ -424,6 +426,10 @@ impl BState {
         for n in nontrivial {
             self.out.nontrivial.insert(n);
         }
+        for (k, v) in covers {
+            self.out.cover(k, v);
+        }
+        self.out.cover("outcome_kind_x_chronyd_mode", (kind as u64) * 16 + info.as_ref().map(|i| i.mode as u64).unwrap_or(15));
         self.h(json!({"publish": {"inc": inc, "outcome": format!("{kind:?}"), "status": status_name(rec.status), "bound": rec.bound, "as_of": [rec.as_of_s, rec.as_of_ns], "t": now}}));
         self.pubs.push(PubRec { rec, at: now, inc, pre_sync: pre_sync && sample.is_none() });
     }
@@ -490,6 +496,22 @@ impl BState {
             }
             return;
         };
+        // C12: the interval must be centred on a realtime reading taken *before* the monotonic one
+        let mut rt = rt;
+        if let CallResult::Ok { earliest, latest, .. } = &res {
+            if (earliest + latest) % 2 == 0 {
+                let centre = (earliest + latest) / 2;
+                let mi = obs.reads.iter().position(|x| x.0 == mono.0).unwrap_or(0);
+                if rt.1 != centre {
+                    if let Some((pos, r)) = obs.reads.iter().enumerate().find(|(_, x)| x.0 == libc::CLOCK_REALTIME as u64 && x.1 == centre) {
+                        if pos > mi {
+                            self.out.violate(&["C12"], "interval_centred_on_later_realtime_read", "order".into(), format!("the interval is centred on a realtime reading taken at {} ns, after the monotonic reading taken at {} ns", r.2, mono.2));
+                        }
+                        rt = *r;
+                    }
+                }
+            }
+        }
         let (real_v, mono_v) = (rt.1, mono.1);
         // which record explains the result?
         let candidates: Vec<PRecord> = match known.or(self.synthetic_rec) {
@@ -940,6 +962,13 @@ impl Observer for BObserver {
                     // death notifications to the main thread
                 } else if let Some(&pi) = d.sent.get(&(ev.a, ev.b)) {
                     d.writer = Some(ev.tid);
+                    if d.cur_msg.is_some() {
+                        // the previous outcome was consumed without a publication (C08: every
+                        // outcome results in a publication)
+                        let inc = d.inc;
+                        s.out.violate(&["C08"], "outcome_without_publication", "skipped".into(), format!("incarnation {inc}: the writer took the next outcome although the previous one had not been published"));
+                    }
+                    let d = &mut s.daemons[di];
                     d.cur_msg = Some(pi);
                     d.systime = None;
                     d.msgs_delivered += 1;
